@@ -341,6 +341,7 @@ void reb_integrator_bs_part1(struct reb_simulation* r){
     if (r->calculate_megno){
         reb_simulation_error(r, "The BS integrator does currently not support MEGNO.");
     }
+    r->gravity_ignore_terms = 0;
             
     struct reb_ode** odes = r->odes;
     int Ns = r->N_odes;
